@@ -1041,3 +1041,107 @@ Proof.
   split; [discriminate|]. split; [fits|]. repeat split; unfold ceval_fits; vm_compute; reflexivity.
 Qed.
 
+
+(* ---- the canonicalisations of the source translator (package robust, driver/rust2coq.py header C1, C2, C3, C7) as theorems about
+   the loop combinators: the `for_` / `for_ret` / `for_rev` term the translator emits for a counter `while` (e.g. the Horner loop
+   of Polynomial::eval written `let mut i = degree; while i > 0 { i -= 1; .. }`) equals the while_ret term of the table-driven
+   translation of the same loop, for every body, every state, every bound and every sufficient fuel. *)
+From OV Require gen.SrcPrelude Proofs.SrcEqBase Proofs.SrcEqCanon Model.Matrix.
+Theorem counter_up_while_is_for_ret : forall (S R : Type) (hi : nat) (body : nat -> S -> res (S + R)) (fuel lo : nat) (s : S),
+  hi - lo < fuel ->
+  SrcPrelude.while_ret fuel (SrcEqCanon.while_up_body hi body) (lo, s)
+  = let* o := SrcPrelude.for_ret lo hi body s in
+    Ok (Some (match o with inl s' => inl (Nat.max lo hi, s') | inr r => inr r end)).
+Proof. intros S R hi body fuel lo s H. exact (SrcEqCanon.counter_up_while_is_for_ret hi body fuel lo s H). Qed.
+Check counter_up_while_is_for_ret : forall (S R : Type) (hi : nat) (body : nat -> S -> res (S + R)) (fuel lo : nat) (s : S),
+  hi - lo < fuel ->
+  SrcPrelude.while_ret fuel (SrcEqCanon.while_up_body hi body) (lo, s)
+  = let* o := SrcPrelude.for_ret lo hi body s in
+    Ok (Some (match o with inl s' => inl (Nat.max lo hi, s') | inr r => inr r end)).
+Print Assumptions counter_up_while_is_for_ret.
+Example counter_up_while_is_for_ret_nonvacuous :
+  5 - 2 < 4 /\ SrcPrelude.while_ret 4 (SrcEqCanon.while_up_body (R := nat) 5 (fun i s => if i =? 4 then Ok (inr (s + i)) else Ok (inl (s + i)))) (2, 0)
+               = Ok (Some (inr 9)).
+Proof. split; [repeat constructor | reflexivity]. Qed.
+
+Theorem counter_up_while_is_for : forall (S : Type) (hi : nat) (body : nat -> S -> res S) (fuel lo : nat) (s : S),
+  hi - lo < fuel ->
+  SrcPrelude.while_ret fuel (SrcEqCanon.while_up_body0 hi body) (lo, s)
+  = let* s' := for_ lo hi body s in Ok (Some (inl (Nat.max lo hi, s'))).
+Proof. intros S hi body fuel lo s H. exact (SrcEqCanon.counter_up_while_is_for hi body fuel lo s H). Qed.
+Check counter_up_while_is_for : forall (S : Type) (hi : nat) (body : nat -> S -> res S) (fuel lo : nat) (s : S),
+  hi - lo < fuel ->
+  SrcPrelude.while_ret fuel (SrcEqCanon.while_up_body0 hi body) (lo, s)
+  = let* s' := for_ lo hi body s in Ok (Some (inl (Nat.max lo hi, s'))).
+Print Assumptions counter_up_while_is_for.
+Example counter_up_while_is_for_nonvacuous :
+  6 - 1 < 6 /\ SrcPrelude.while_ret 6 (SrcEqCanon.while_up_body0 6 (fun i s => Ok (s ++ [i]))) (1, []) = Ok (Some (inl (6, [1; 2; 3; 4; 5]))).
+Proof. split; [repeat constructor | reflexivity]. Qed.
+
+Theorem counter_up1_while_is_for : forall (S : Type) (hi : nat) (body : nat -> S -> res S) (fuel lo : nat) (s : S),
+  hi - lo < fuel ->
+  SrcPrelude.while_ret fuel (SrcEqCanon.while_up1_body hi body) (lo, s)
+  = let* s' := for_ lo hi (fun k s => let i1 := (k + 1)%nat in body i1 s) s in Ok (Some (inl (Nat.max lo hi, s'))).
+Proof. intros S hi body fuel lo s H. exact (SrcEqCanon.counter_up1_while_is_for hi body fuel lo s H). Qed.
+Check counter_up1_while_is_for : forall (S : Type) (hi : nat) (body : nat -> S -> res S) (fuel lo : nat) (s : S),
+  hi - lo < fuel ->
+  SrcPrelude.while_ret fuel (SrcEqCanon.while_up1_body hi body) (lo, s)
+  = let* s' := for_ lo hi (fun k s => let i1 := (k + 1)%nat in body i1 s) s in Ok (Some (inl (Nat.max lo hi, s'))).
+Print Assumptions counter_up1_while_is_for.
+Example counter_up1_while_is_for_nonvacuous :
+  3 - 0 < 4 /\ SrcPrelude.while_ret 4 (SrcEqCanon.while_up1_body 3 (fun i s => Ok (s ++ [i]))) (0, []) = Ok (Some (inl (3, [1; 2; 3]))).
+Proof. split; [repeat constructor | reflexivity]. Qed.
+
+Theorem counter_down_while_is_for_rev : forall (S : Type) (lo : nat) (body : nat -> S -> res S) (fuel hi : nat) (s : S),
+  hi - lo < fuel ->
+  SrcPrelude.while_ret fuel (SrcEqCanon.while_down_body lo body) (hi, s)
+  = let* s' := for_rev lo hi body s in Ok (Some (inl (Nat.min hi lo, s'))).
+Proof. intros S lo body fuel hi s H. exact (SrcEqCanon.counter_down_while_is_for_rev lo body fuel hi s H). Qed.
+Check counter_down_while_is_for_rev : forall (S : Type) (lo : nat) (body : nat -> S -> res S) (fuel hi : nat) (s : S),
+  hi - lo < fuel ->
+  SrcPrelude.while_ret fuel (SrcEqCanon.while_down_body lo body) (hi, s)
+  = let* s' := for_rev lo hi body s in Ok (Some (inl (Nat.min hi lo, s'))).
+Print Assumptions counter_down_while_is_for_rev.
+Example counter_down_while_is_for_rev_nonvacuous :
+  4 - 0 < 5 /\ SrcPrelude.while_ret 5 (SrcEqCanon.while_down_body 0 (fun i s => Ok (s ++ [i]))) (4, []) = Ok (Some (inl (0, [3; 2; 1; 0]))).
+Proof. split; [repeat constructor | reflexivity]. Qed.
+
+Theorem countdown_for_is_for_rev : forall (S : Type) (n : nat) (body : nat -> S -> res S) (s : S),
+  for_ 0 n (fun k s => let* a := usub n 1 in let* i := usub a k in body i s) s = for_rev 0 n body s.
+Proof. intros S n body s. exact (SrcEqCanon.countdown_for_is_for_rev n body s). Qed.
+Check countdown_for_is_for_rev : forall (S : Type) (n : nat) (body : nat -> S -> res S) (s : S),
+  for_ 0 n (fun k s => let* a := usub n 1 in let* i := usub a k in body i s) s = for_rev 0 n body s.
+Print Assumptions countdown_for_is_for_rev.
+
+Theorem conditional_orientation : forall (Y : Type) (a b : nat) (c : bool) (x y : Y),
+  (if a <=? b then x else y) = (if b <? a then y else x) /\
+  (if a <? b then x else y) = (if b <=? a then y else x) /\
+  (if negb c then x else y) = (if c then y else x).
+Proof. intros Y a b c x y. exact (conj (SrcEqBase.if_leb_flip a b x y) (conj (SrcEqBase.if_ltb_flip a b x y) (SrcEqBase.if_negb_flip c x y))). Qed.
+Check conditional_orientation : forall (Y : Type) (a b : nat) (c : bool) (x y : Y),
+  (if a <=? b then x else y) = (if b <? a then y else x) /\
+  (if a <? b then x else y) = (if b <=? a then y else x) /\
+  (if negb c then x else y) = (if c then y else x).
+Print Assumptions conditional_orientation.
+
+Theorem negation_normal_form : forall (a b : nat) (x y : bool),
+  negb (a <? b) = (b <=? a) /\ negb (a <=? b) = (b <? a) /\ negb (negb (a =? b)) = (a =? b) /\
+  negb (x && y)%bool = (negb x || negb y)%bool /\ negb (x || y)%bool = (negb x && negb y)%bool.
+Proof. intros a b x y. exact (conj (SrcEqCanon.nnf_ltb a b) (conj (SrcEqCanon.nnf_leb a b) (conj (SrcEqCanon.nnf_eqb a b) (conj (SrcEqCanon.nnf_andb x y) (SrcEqCanon.nnf_orb x y))))). Qed.
+Check negation_normal_form : forall (a b : nat) (x y : bool),
+  negb (a <? b) = (b <=? a) /\ negb (a <=? b) = (b <? a) /\ negb (negb (a =? b)) = (a =? b) /\
+  negb (x && y)%bool = (negb x || negb y)%bool /\ negb (x || y)%bool = (negb x && negb y)%bool.
+Print Assumptions negation_normal_form.
+
+Theorem element_writes_keep_shape : forall (A : Arith) (l l' : list A) (m m' : Matrix.matrix A) (i j : nat) (x : A),
+  (upd l i x = Ok l' -> length l' = length l) /\
+  (Matrix.mset m i j x = Ok m' -> Matrix.rows m' = Matrix.rows m /\ Matrix.cols m' = Matrix.cols m /\ length (Matrix.buf m') = length (Matrix.buf m)).
+Proof. intros A l l' m m' i j x. exact (conj (SrcEqCanon.upd_keeps_length l l' i x) (SrcEqCanon.mset_keeps_shape m m' i j x)). Qed.
+Check element_writes_keep_shape : forall (A : Arith) (l l' : list A) (m m' : Matrix.matrix A) (i j : nat) (x : A),
+  (upd l i x = Ok l' -> length l' = length l) /\
+  (Matrix.mset m i j x = Ok m' -> Matrix.rows m' = Matrix.rows m /\ Matrix.cols m' = Matrix.cols m /\ length (Matrix.buf m') = length (Matrix.buf m)).
+Print Assumptions element_writes_keep_shape.
+Example element_writes_keep_shape_nonvacuous :
+  upd [q 1 1; q 2 1; q 3 1] 1 (q 9 1 : AQ) = Ok [q 1 1; q 9 1; q 3 1] /\
+  exists m', Matrix.mset (@Matrix.mkM AQ [q 1 1; q 2 1; q 3 1; q 4 1] 2 2) 1 0 (q 7 1 : AQ) = Ok m' /\ Matrix.rows m' = 2.
+Proof. split; [reflexivity|]. eexists; split; reflexivity. Qed.
